@@ -10,19 +10,20 @@ from engine.flow import Flow, _walk_no_nested
 from .ctxuse import print_sites, single_defs
 
 META = {
-    'text': 'Static shape conditions whose violation is exactly how this code base has gone exponential or non-terminating '
-            'before: (a) recursion multiplicity <= 1 - in every function of the printing pipeline the same sub-value is '
-            'handed to a recursive print entry at most once on any path (guard facts decide mutual exclusion), every '
-            'normalize() normalises each child at most once, FlatChoice.normalize normalises neither alternative eagerly and '
-            'its accessors normalise at most once; (b) loop inventory - every while loop reachable from the pipeline is a '
-            'stack-pop machine, an unwrap loop on a strictly smaller value, or an iterator loop whose every path advances, '
-            'yields, exits or shortens the held piece, and no for loop iterates an infinite iterator; (c) the width handed '
-            'to the string splitter has a constant lower bound >= 1; (d) the long-sequence shortcut depends only on the '
-            'number of elements, monotonically. The polynomial growth law itself (a step count) is NOT decided.',
-    'note': 'multiplicity 2 on a child gives T(depth) >= 2 T(depth-1); the dict printer\'s second render of a commented value is '
-            'a listed known finding',
-    'technique': 'static analysis: per-path multiplicity counting with guard-fact exclusion, loop classification by path '
-                 'enumeration, interval lower bound from canonical max-forms',
+    'text': 'Termination and cost, statically: (a) no function of the printing pipeline hands the same sub-value to a recur'
+            "sive print entry twice on one path (alias-aware, path-sensitive multiplicity; the dict printer's commented val"
+            'ue is the recorded finding); normalising nested flat_choice documents that share a sub-document takes a number'
+            ' of normalize calls linear in the nesting depth (document model, depths 1-4); each normalize touches each chil'
+            'd once; (b) loop inventory: every for loop iterates a finite iterable, every while loop makes progress on ever'
+            'y feasible path (advances an iterator, pops, yields, shortens the piece in hand, descends into a smaller objec'
+            't); (c) the width handed to the string splitter has a constant lower bound >= 1 and the splitter refuses non-p'
+            'ositive widths; (d) the look-ahead shortcut of the sequence builder is a lower bound of the real width; (e) on'
+            ' every cyclic object graph of the wrapper model the interpreted pipeline reaches the recursion marker. The deg'
+            'ree of the polynomial is NOT decided.',
+    'note': "multiplicity 2 on a child gives T(depth) >= 2 T(depth-1); the dict printer's second render of a commented valu"
+            'e is a listed known finding',
+    'technique': 'static analysis: multiplicity dataflow, loop classification over feasible paths, linear lower bounds, small-sc'
+                 'ope interpretation of normalisation cost and of cyclic values',
 }
 
 INFINITE = {'cycle', 'count', 'repeat', 'itertools.cycle', 'itertools.count', 'itertools.repeat'}
